@@ -14,9 +14,21 @@ def run_scenarios(pid, scen_rows, seed, nrandom, timeout=900, extra_env=None):
         env.update(extra_env)
     rc, gout, wall = vlib.go_test("mcp", "^TestVerif_Conn$", ["mcp/conn_harness_test.go"], env=env, timeout=timeout)
     vlib.go_must_build(rc, gout, pid)
-    rows = vlib.read_ndjson(obs) if os.path.exists(obs) else []
+    rows = []
+    if os.path.exists(obs):
+        for line in open(obs):
+            try:
+                rows.append(json.loads(line))
+            except Exception:
+                break  # truncated last line after a crash
     if rc != 0 and not any(r.get("ev") == "panic" for r in rows):
-        raise vlib.MachineryError("Conn harness failed:\n" + gout[-3000:])
+        m = re.search(r"^(panic: .*|fatal error: .*)$", gout, re.M)
+        if m and ("go-sdk" in gout):
+            # the SDK crashed the process: real-code behaviour. Attribute it to the scenario in flight.
+            rows.append({"ev": "panic", "msg": m.group(1)[:300], "where": "process crash", "seq": 0, "t": 0})
+            vlib.write_ndjson(obs, rows)
+        else:
+            raise vlib.MachineryError("Conn harness failed:\n" + gout[-3000:])
     return obs, rows, gout
 
 
@@ -130,10 +142,12 @@ def strict(v, rows):
     """Strict validation of the recorded traces against Conn.tla (binding / drift). Traces that use
     the generic outgoing-notification step are not modelled by Conn.tla and are skipped."""
     tr = vlib.split_traces(rows)
-    keep = [(tid, t) for (tid, s, t) in tr if not any(x.get("ev") == "notify.begin" for x in t)]
+    keep = [(tid, t) for (tid, s, t) in tr if not any(x.get("ev") in ("notify.begin", "notifybad.begin") or (x.get("ev") == "rd.deliver" and x.get("kind") == "init") for x in t)]
     bad = {tid for (tid, s, t) in tr if any(x.get("ev") in ("panic", "setup.error") for x in t)}
     keep = [(tid, t) for (tid, t) in keep if tid not in bad]
     out = vlib.outdir(v.pid)
+    for old in glob.glob(os.path.join(out, "drift-*.ndjson")):
+        os.remove(old)
     accepted = 0
     for attempt in range(6):
         cur = [r for (tid, t) in keep for r in t]
